@@ -192,7 +192,9 @@ func (k *Keeper) IterateUndelegationsByStakerAndAsset(
 // end of the block with the provided height.
 func (k *Keeper) GetPendingUndelegationRecKeys(ctx sdk.Context, height uint64) (recordKeyList []string, err error) {
 	store := prefix.NewStore(ctx.KVStore(k.storeKey), types.KeyPrefixPendingUndelegations)
-	iterator := sdk.KVStorePrefixIterator(store, []byte(hexutil.EncodeUint64(height)))
+	// the key is completeHeight + "/" + lzNonce: the separator must be part of the prefix, otherwise
+	// the hex of `height` also matches every larger height whose hex extends it (0x10 vs 0x100).
+	iterator := sdk.KVStorePrefixIterator(store, []byte(hexutil.EncodeUint64(height)+"/"))
 	defer iterator.Close()
 
 	ret := make([]string, 0)
